@@ -1,6 +1,7 @@
 //! Plumbing shared by every engine: virtual clock, panic capture, evidence,
 //! known-findings matching, replay artefacts, the per-check runner.
 pub mod clock;
+pub mod logsink;
 pub mod panics;
 pub mod report;
 pub mod util;
